@@ -11,6 +11,8 @@ import (
 	"pgregory.net/rapid"
 
 	"verifharness/evidence"
+	"verifharness/fakecluster"
+	"verifharness/rclient"
 	"verifharness/refmodel"
 	"verifharness/sut"
 )
@@ -22,6 +24,9 @@ import (
 type mkCase struct {
 	Cfg  sut.Config `json:"cfg"`
 	Spec PipeSpec   `json:"spec"` // one client, one multi-key request (plus optional neighbours for C07)
+	// Bystander > 0 (C06): while the request is handled, another client sends this many GETs, one write each,
+	// without waiting: other connections' reads and replies fall between the request's decoding and its forwarding
+	Bystander int `json:"bystander_requests,omitempty"`
 }
 
 // genMultiKeyReq draws one MGET/DEL/MSET with up to maxKeys keys: duplicates, colliding hash tags, empty and
@@ -101,7 +106,48 @@ func c06Gen(t *rapid.T) mkCase {
 	cs := ClientSpec{Reqs: []Req{r}}
 	cs.Cuts = genCuts(len(r.Encode())).Draw(t, "cuts")
 	c.Spec.Clients = []ClientSpec{cs}
+	if rapid.IntRange(0, 2).Draw(t, "bystander") == 0 {
+		c.Bystander = rapid.SampledFrom([]int{50, 200, 600}).Draw(t, "nbystander")
+	}
 	return c
+}
+
+// c06Bystander sends n GETs, one write each, and returns a function that waits for the replies and judges them.
+func c06Bystander(f *Fixture, n int) func() []Discrepancy {
+	cl, err := rclient.Dial(f.Proxy.Addr(), "")
+	if err != nil {
+		return func() []Discrepancy { return []Discrepancy{disc("C06/connect", "bystander cannot connect: %v", err)} }
+	}
+	keys := make([]string, n)
+	done := make(chan struct{})
+	go func() {
+		defer close(done)
+		for i := 0; i < n; i++ {
+			keys[i] = refmodel.KeyInSlot([]int{200, 7000, 13000}[i%3], fmt.Sprintf("bystander-%d", i))
+			if cl.Write(refmodel.EncodeCmd([]byte("get"), []byte(keys[i]))) != nil {
+				return
+			}
+			if i%8 == 7 {
+				time.Sleep(50 * time.Microsecond)
+			}
+		}
+	}()
+	return func() []Discrepancy {
+		defer cl.Close()
+		<-done
+		cl.WaitReplies(n, 8*time.Second)
+		st := cl.Snapshot()
+		for i := 0; i < n; i++ {
+			want := refmodel.Bulk(fakecluster.EchoValue("get", keys[i]))
+			if i >= len(st.Replies) {
+				return []Discrepancy{disc("C06/bystander-missing-replies", "the client sending plain GETs next to the multi-key request got %d of %d replies", len(st.Replies), n)}
+			}
+			if !bytes.Equal(st.Replies[i].Raw, want) {
+				return []Discrepancy{disc("C06/bystander-wrong-reply", "the client sending plain GETs next to the multi-key request got %s for its request %d (GET %s)", q(st.Replies[i].Raw), i+1, q([]byte(keys[i])))}
+			}
+		}
+		return nil
+	}
 }
 
 func c06Exec(c *mkCase) []Discrepancy {
@@ -114,7 +160,16 @@ func c06Exec(c *mkCase) []Discrepancy {
 }
 
 func c06Run(f *Fixture, c *mkCase) []Discrepancy {
+	var finish func() []Discrepancy
+	if c.Bystander > 0 {
+		f.Cluster.ResetLog()
+		finish = c06Bystander(f, c.Bystander)
+		time.Sleep(300 * time.Microsecond)
+	}
 	ds := pipeRunCompare("C06", f, &c.Cfg, &c.Spec, 0)
+	if finish != nil {
+		ds = append(ds, finish()...)
+	}
 	if len(ds) > 0 {
 		return ds
 	}
@@ -126,6 +181,9 @@ func c06Run(f *Fixture, c *mkCase) []Discrepancy {
 	var got [][]byte
 	for _, lr := range log {
 		if k := lr.Key(1); len(k) > 8 && (bytes.Contains([]byte(k), []byte("}witness-")) || bytes.HasSuffix([]byte(k), []byte("}ready"))) {
+			continue
+		}
+		if k := lr.Key(1); c.Bystander > 0 && lr.Name == "get" && bytes.Contains([]byte(k), []byte("}bystander-")) {
 			continue
 		}
 		got = append(got, lr.Raw)
@@ -188,7 +246,10 @@ func TestC06(t *testing.T) {
 		if slots >= 2 {
 			cls = append(cls, "two-or-more-slots")
 		}
-		rec.Case(&c, slots >= 2 && (dup || multi), cls...)
+		if c.Bystander > 0 {
+			cls = append(cls, "next-to-another-clients-traffic")
+		}
+		rec.Case(&c, (slots >= 2 && (dup || multi)) || (c.Bystander > 0 && multi), cls...)
 		report(t, "C06", &c, c06Exec(&c))
 	})
 }
